@@ -34,6 +34,7 @@ structure Attr where
   l : Rec := {}  -- lstat record
   s : Rec := {}  -- stat record (meaningful when `sty` is a type letter)
   target : Bytes := []   -- link text (for symbolic links)
+  foreign : Bool := false  -- set by `cutRoot` (-xdev): a directory on another device than its starting point
   deriving Repr, DecidableEq
 
 inductive PermKind where | exact | atLeast | anyOf
@@ -80,6 +81,7 @@ structure Config where
   maxDepth : Nat := 18446744073709551615
   sorted : Bool := false
   follow : Follow := .never
+  xdev : Bool := false
   deriving Repr
 
 /-- `PathBuf::push` of a relative name -/
@@ -359,7 +361,9 @@ def sem (start : Bytes) (v : Visit Attr) (p : Prim) (s : ES) : Bool × ES :=
   | .pathOut pre term => (true, { s with gs := { s.gs with out := s.gs.out ++ pre ++ FuModel.Utf8.lossy path ++ term } })
   | .lit b => (true, { s with gs := { s.gs with out := s.gs.out ++ b } })
   | .printf comps _ => (true, { s with gs := { s.gs with out := s.gs.out ++ PrintfR.render start v comps } })
-  | .prune => (true, if fileType v == 'd' then { s with prune := true } else s)
+  -- `PruneMatcher` marks a directory; `process_dir` acts on the mark unless (-xdev) the directory
+  -- lies on another device than the starting point, where the walk did not enter it
+  | .prune => (true, if fileType v == 'd' && !(attrOf v).foreign then { s with prune := true } else s)
   | .quit => (true, { s with quit := true })
   | .delete =>
     -- `DeleteMatcher`: "." is skipped; a real directory goes with `remove_dir` (fails unless it is
@@ -469,6 +473,29 @@ def sortKids {α : Type} : List (Node α) → List (Node α)
   | n :: ns => insertNode (sortNode n) (sortKids ns)
 end
 
+/-! ### `-xdev` / `-mount`: `WalkDir::same_file_system(true)`
+
+walkdir compares the device of every directory it is about to push (a real directory, or a link
+it followed to one) with the device of the starting point (`root_device`, the status through
+links); one that lies elsewhere is still yielded but its listing is never pushed: for the walk it
+is an entry that is not descended into.  `cutRoot` is that view of a starting point; the mark
+`foreign` remembers where it cut. -/
+
+mutual
+def cutNode (followLinks : Bool) (dev : Nat) : Node Attr → Node Attr
+  | .leaf n k a => .leaf n k a
+  | .dir n l r a kids =>
+    if (!l || followLinks) && a.s.dev != dev then .leaf n (if l then .linkFile else .plain) { a with foreign := true }
+    else .dir n l r a (cutKids followLinks dev kids)
+def cutKids (followLinks : Bool) (dev : Nat) : List (Node Attr) → List (Node Attr)
+  | [] => []
+  | n :: ns => cutNode followLinks dev n :: cutKids followLinks dev ns
+end
+
+def cutRoot (f : Follow) : Node Attr → Node Attr
+  | .leaf n k a => .leaf n k a
+  | .dir n l r a kids => .dir n l r a (cutKids (f == .always) a.s.dev kids)
+
 /-! ### `process_dir`, `do_find` -/
 
 def refCfg (c : Config) : RefCfg := ⟨c.depthFirst, c.minDepth, c.maxDepth, c.follow⟩
@@ -513,7 +540,7 @@ def doFind (c : Config) (m : M Prim) : List (Bytes × Option (Node Attr)) → GS
 
 inductive Arg where
   | tok (t : Tok Prim)        -- an ordinary token
-  | depth | sorted | follow   -- options: always-true primaries with an effect on the configuration
+  | depth | sorted | follow | xdev  -- options: always-true primaries with an effect on the configuration
   | delete                    -- the action; it also switches to post-order while the tree is built
   | regextype (t : FuModel.Find.Regex.RType)   -- positional: applies to the -regex tokens that follow
   | regex (icase : Bool) (printedIn : FuModel.Find.Regex.RType) (re : FuModel.Find.Regex.Re)
@@ -540,6 +567,7 @@ def applyArg (c : Config) : Arg → Config
   | .delete => { c with depthFirst := true }
   | .sorted => { c with sorted := true }
   | .follow => { c with follow := .always }
+  | .xdev => { c with xdev := true }
   | .minDepth n => { c with minDepth := n }
   | .maxDepth n => { c with maxDepth := n }
   | _ => c
@@ -547,6 +575,7 @@ def applyArg (c : Config) : Arg → Config
 /-- the whole run: `-H`, `-L`, `-P` flag, starting points with what they resolve to, expression -/
 def run (follow : Follow) (roots : List (Bytes × Option (Node Attr))) (args : List Arg) (g0 : GS := {}) : Option RunRes :=
   let c := args.foldl applyArg { follow := follow }
+  let roots := if c.xdev then roots.map (fun r => (r.1, r.2.map (cutRoot c.follow))) else roots
   match buildTop Prim.isAction (.pathOut [] [10]) (args.map Arg.tok') with
   | .ok m => some (doFind c m roots g0 0 0)
   | .error _ => none
